@@ -7,8 +7,17 @@ mod sets;
 
 use fw::Tier;
 
+static LAST_PANIC: std::sync::Mutex<String> = std::sync::Mutex::new(String::new());
+
 fn main() {
-    std::panic::set_hook(Box::new(|_| {}));
+    // panics inside `no_panic` closures are expected and silent; the last one is remembered so that a
+    // panic escaping a set (a harness-level `unwrap` that stopped holding) can be explained
+    std::panic::set_hook(Box::new(|info| {
+        let loc = info.location().map(|l| format!("{}:{}", l.file(), l.line())).unwrap_or_default();
+        let msg = info.payload().downcast_ref::<&str>().map(|s| (*s).to_string())
+            .or_else(|| info.payload().downcast_ref::<String>().cloned()).unwrap_or_default();
+        if let Ok(mut g) = LAST_PANIC.lock() { *g = format!("{msg} at {loc}"); }
+    }));
     let args: Vec<String> = std::env::args().collect();
     let cmd = args.get(1).map(String::as_str).unwrap_or("list");
     match cmd {
@@ -28,8 +37,14 @@ fn main() {
             let Some((_, run, _)) = sets::all().into_iter().find(|(n, _, _)| n == set) else {
                 eprintln!("unknown set {set}"); std::process::exit(2);
             };
-            let rep = run(tier, seed);
-            println!("{}", rep.to_json());
+            match std::panic::catch_unwind(|| run(tier, seed)) {
+                Ok(rep) => println!("{}", rep.to_json()),
+                Err(_) => {
+                    let why = LAST_PANIC.lock().map(|g| g.clone()).unwrap_or_default();
+                    eprintln!("SET-PANIC set={set}: {why}");
+                    std::process::exit(101);
+                },
+            }
         },
         "replay" => {
             let set = &args[2];
